@@ -380,6 +380,12 @@ def nontrivial(c, o):
     return False
 
 
+def pregen(ctx):
+    """tie (T): re-translate logistic_map / henon_map / narma of datasets/_chaos.py of the tree under test into coq/gen/Gen_maps.v"""
+    from vlib import gen
+    return gen.pregen_units(["maps"])
+
+
 def correspondence(ctx):
     rng = ctx.rng("corr")
     cases = gen_cases(rng, ctx.n(240, 3000))
